@@ -29,9 +29,10 @@ const (
 	dErrAfter
 	dErr
 	dCancel
+	dStale
 )
 
-func dispRes(d int) string { return []string{"ok", "erra", "err", "can"}[d] }
+func dispRes(d int) string { return []string{"ok", "erra", "err", "can", "ok"}[d] }
 
 type fault struct {
 	kind string
@@ -75,6 +76,7 @@ type simRec struct {
 type sim struct {
 	// durable state
 	recs    []*workflow.Record // creation order
+	hist    map[string][]*workflow.Record // every committed version per run (for stale reads)
 	runNum  map[string]int
 	nextRun int
 	outbox  []outEntry
@@ -103,7 +105,7 @@ type sim struct {
 }
 
 func newSim() *sim {
-	return &sim{runNum: map[string]int{}, nextRun: 1, nextOid: 1, cursors: map[string]int{}, nextTid: 1,
+	return &sim{hist: map[string][]*workflow.Record{}, runNum: map[string]int{}, nextRun: 1, nextOid: 1, cursors: map[string]int{}, nextTid: 1,
 		roles: map[string]*proc{}, procs: map[string]*proc{}, reqCh: make(chan *request, 1024), counts: map[string]int{},
 		dead: map[int]bool{}, instCtx: map[int]context.Context{}, attempts: map[string]int{}}
 }
@@ -140,6 +142,11 @@ func (s *sim) decide(p *proc, kind string) int {
 					s.killInst(p.inst)
 				}
 				return dCancel
+			case "sr":
+				if kind == "LK" {
+					return dStale
+				}
+				return dOk
 			}
 		}
 	}
@@ -194,7 +201,7 @@ func procOf(ctx context.Context) *proc {
 
 func dispErr(d int) error {
 	switch d {
-	case dOk:
+	case dOk, dStale:
 		return nil
 	case dCancel:
 		return context.Canceled
@@ -307,7 +314,7 @@ func (st simStore) Store(ctx context.Context, r *workflow.Record) error {
 		rr.UpdatedAt = simBase.Add(time.Duration(s.now))
 	}
 	s.emit(p, fmt.Sprintf("ST:%s/%s=%s", s.recTok(s.find(r.RunID)), s.recTok(rr), dispRes(d)))
-	if d == dOk || d == dErrAfter {
+	if d == dOk || d == dErrAfter || d == dStale {
 		ed, err := workflow.MakeOutboxEventData(*rr)
 		if err != nil {
 			panic(err)
@@ -317,6 +324,7 @@ func (st simStore) Store(ctx context.Context, r *workflow.Record) error {
 		} else {
 			s.recs = append(s.recs, rr)
 		}
+		s.hist[rr.RunID] = append(s.hist[rr.RunID], cloneRec(rr))
 		s.outbox = append(s.outbox, outEntry{seq: s.nextOid, id: ed.ID, wf: ed.WorkflowName, data: ed.Data})
 		s.nextOid++
 	}
@@ -342,6 +350,13 @@ func (st simStore) Lookup(ctx context.Context, runID string) (*workflow.Record, 
 	p := procOf(ctx)
 	d := s.enter(p, "LK", 0)
 	r := s.find(runID)
+	if d == dStale {
+		// a lagging replica: the previous committed version of the run, when there is one
+		if h := s.hist[runID]; len(h) >= 2 {
+			r = h[len(h)-2]
+		}
+		d = dOk
+	}
 	s.emit(p, st.lookupTok("LK", s.runN(runID), d, r))
 	if d != dOk {
 		return nil, dispErr(d)
@@ -421,7 +436,7 @@ func (st simStore) DeleteOutboxEvent(ctx context.Context, id string) error {
 		}
 	}
 	s.emit(p, fmt.Sprintf("DO:%d=%s", seq, dispRes(d)))
-	if d == dOk || d == dErrAfter {
+	if d == dOk || d == dErrAfter || d == dStale {
 		var keep []outEntry
 		for _, o := range s.outbox {
 			if o.id != id {
@@ -458,7 +473,7 @@ func (sd *simSender) Send(ctx context.Context, foreignID string, statusType int,
 	p := procOf(ctx)
 	d := s.enter(p, "SD", 0)
 	s.emit(p, fmt.Sprintf("SD:%s=%s", s.hdrTok(foreignID, statusType, headers), dispRes(d)))
-	if d == dOk || d == dErrAfter {
+	if d == dOk || d == dErrAfter || d == dStale {
 		h := map[workflow.Header]string{}
 		for k, v := range headers {
 			h[k] = v
@@ -529,7 +544,7 @@ func (r *simReceiver) Recv(ctx context.Context) (*workflow.Event, workflow.Ack, 
 	ack := func() error {
 		d := s.enter(p, "AK", 0)
 		s.emit(p, fmt.Sprintf("AK:%d=%s", e.ID, dispRes(d)))
-		if d == dOk || d == dErrAfter {
+		if d == dOk || d == dErrAfter || d == dStale {
 			s.cursors[r.name] = idx + 1
 		}
 		return dispErr(d)
@@ -551,7 +566,7 @@ func (t simTimeouts) Create(ctx context.Context, wf, fid, runID string, status i
 	p := procOf(ctx)
 	d := s.enter(p, "TC", 0)
 	s.emit(p, fmt.Sprintf("TC:%d.%d.%d=%s", s.runN(runID), status, s.ns(expireAt), dispRes(d)))
-	if d == dOk || d == dErrAfter {
+	if d == dOk || d == dErrAfter || d == dStale {
 		s.timers = append(s.timers, workflow.TimeoutRecord{ID: s.nextTid, WorkflowName: wf, ForeignID: fid, RunID: runID, Status: status, ExpireAt: expireAt, CreatedAt: simBase.Add(time.Duration(s.now))})
 		s.nextTid++
 	}
@@ -563,7 +578,7 @@ func (t simTimeouts) Complete(ctx context.Context, id int64) error {
 	p := procOf(ctx)
 	d := s.enter(p, "TM", 0)
 	s.emit(p, fmt.Sprintf("TM:%d=%s", id, dispRes(d)))
-	if d == dOk || d == dErrAfter {
+	if d == dOk || d == dErrAfter || d == dStale {
 		for i := range s.timers {
 			if s.timers[i].ID == id {
 				s.timers[i].Completed = true
@@ -578,7 +593,7 @@ func (t simTimeouts) Cancel(ctx context.Context, id int64) error {
 	p := procOf(ctx)
 	d := s.enter(p, "TX", 0)
 	s.emit(p, fmt.Sprintf("TX:%d=%s", id, dispRes(d)))
-	if d == dOk || d == dErrAfter {
+	if d == dOk || d == dErrAfter || d == dStale {
 		var keep []workflow.TimeoutRecord
 		for _, x := range s.timers {
 			if x.ID != id {
